@@ -191,3 +191,39 @@ Theorem logql_log_partial_regexp_guards_met :
      = Some [Some {| o_fp := 103; o_labels := [("b", "1"); ("n", "10"); ("verb", "get")]; o_line := ex3_line; o_ts := 1700000000000000005 |}].
 Proof. exact partial_regexp_guards_met. Qed.
 Print Assumptions logql_log_partial_regexp_guards_met.
+
+(* Plan(script, false): the statement whose rows feed the in-process engine when the pipeline has a stage that is not planned
+   in SQL (`| json` without parameters, `| logfmt`, `| line_format`: logql_transpiler_v2.Plan breaks the script in front of it
+   and plans the prefix with finalize = false). For every query of either fragment (filters only - the usual prefix -, or
+   json / regexp / drop stages in any order), under the hypotheses of logql_log_partial[_parsers]: the planners produce a
+   SELECT, it evaluates, and its rows are ALL the lines the prefix lets through, each with its current labels and
+   fingerprint, whatever ctx.Limit says (the limit is the in-process LimitPlanner's business), in timestamp order of the
+   query direction (what that LimitPlanner relies on when it keeps the first N). *)
+Theorem logql_breakpoint_plan :
+  forall (RG : ReGroups) re_match parse_float json_get hash_labels (tie : forall A : Type, list A -> list A),
+    (forall A (l : list A), Permutation (tie A l) l) ->
+    forall q c d, in_fragment q || in_fragment2 q = true -> oracle_ok re_match parse_float q -> ctx_ok c = true -> db_ok c d ->
+    width_guard q = true -> absent_guard re_match q d ->
+    bp_correct2 re_match parse_float json_get hash_labels tie q c d.
+Proof. exact logql_breakpoint_plan_proof. Qed.
+Print Assumptions logql_breakpoint_plan.
+
+(* its hypotheses are met by the query of logql_log_partial_guards_met over three lines: ctx.Limit is 1, the statement of
+   Plan(script, false) returns both matching lines, the older one first (forward) *)
+Theorem logql_breakpoint_plan_guards_met :
+  in_fragment ex_query || in_fragment2 ex_query = true /\ oracle_ok (RG := no_groups) no_re no_float ex_query /\ ctx_ok ex_ctx = true
+  /\ db_ok ex_ctx bp_db /\ width_guard ex_query = true /\ absent_guard no_re ex_query bp_db /\ c_limit ex_ctx = 1%Z
+  /\ match bp_select ex_query ex_ctx with
+     | Some sel => option_map (map row_out) (eval (RG := no_groups) no_re no_float no_json no_hash LogqlSemProofs.tie_id (to_sqldb ex_ctx bp_db) sel)
+     | None => None end
+     = Some [Some {| o_fp := 7; o_labels := [("b", "1")]; o_line := "well"; o_ts := 1700000000000000003 |};
+             Some {| o_fp := 7; o_labels := [("b", "1")]; o_line := "hello"; o_ts := 1700000000000000005 |}].
+Proof. exact breakpoint_guards_met. Qed.
+Print Assumptions logql_breakpoint_plan_guards_met.
+
+(* the boolean oracle the check runs on the rows of a Plan(script, false) statement decides that specification *)
+Theorem spec_oracle_bp_decides : forall (RG : ReGroups) re_match parse_float json_get hash_labels q c d res,
+  sem2_bp_b re_match parse_float json_get hash_labels q c d res = true
+  <-> Permutation res (log_rows2 re_match parse_float json_get hash_labels q c d) /\ ts_sorted (c_asc c) res.
+Proof. exact @sem2_bp_b_iff. Qed.
+Print Assumptions spec_oracle_bp_decides.
